@@ -2,7 +2,8 @@
 # Build the whole framework from files on disk (offline): regenerate the tables
 # from /repo, full .vo build of the Coq development, extracted model binary.
 cd "$(dirname "$0")"
-export PYTHONPATH=/repo PYTHONHASHSEED=0 PYTHONDONTWRITEBYTECODE=1
+export VERIF_REPO=${VERIF_REPO:-/repo}
+export PYTHONPATH=$VERIF_REPO PYTHONHASHSEED=0 PYTHONDONTWRITEBYTECODE=1
 exec /venv/bin/python - <<'PY'
 import sys
 sys.path.insert(0, 'harness')
